@@ -1076,7 +1076,7 @@ fn search(out: &mut Out, rng: &mut Rng, thorough: bool) {
     record(out, &Case { entry: "vector".into(), f32m: false, family: "corpus".into(), a: vec![vec![1e8, 1e8 + 1.0, 1e8 + 2.0, 1e8 + 3.0]], b: vec![vec![1.0, 2.0, 3.0, 4.0]], idx: vec![3, 0, 0], nums: vec![1.5, 2.0, 0.25], ..Default::default() });
 
     let maxd = 12;
-    let scale = if thorough { 12 } else { 1 };
+    let scale = if thorough { 60 } else { 8 };
     // small shapes exhaustively for the structural oracle
     for n in 1..=(if thorough { 6 } else { 4 }) {
         for p in 1..=(if thorough { 6 } else { 4 }) {
@@ -1259,7 +1259,7 @@ fn corr_unary<T: Sc>(k: &mut Corr, rng: &mut Rng, n: usize, p: usize) {
     k.put::<T>("get_set", format!("c_f (x_get {la} {r} {c}) {} && c_dm (x_set {la} {r} {c} {x}) {}",
         o_f(guard(|| m.get(r, c))), o_dm(guard(|| { let mut w = m.clone(); w.set(r, c, x); w })), la = la, r = coq_n(r), c = coq_n(c), x = coq_f64(x.f())), sh);
     let which = rng.below(4);
-    k.put::<T>("element_mut", format!("c_dm (x_elem {} {} {} {} {}) {}", coq_n(which), la, coq_n(r), coq_n(c), coq_f64(x.f()),
+    k.put::<T>("element_mut", format!("{} (x_elem {} {} {} {} {}) {}", cmp::<T>("c_dm", if which == 3 { Kind::Div } else { ex }), coq_n(which), la, coq_n(r), coq_n(c), coq_f64(x.f()),
         o_dm(guard(|| { let mut w = m.clone(); match which { 0 => w.add_element_mut(r, c, x), 1 => w.sub_element_mut(r, c, x), 2 => w.mul_element_mut(r, c, x), _ => w.div_element_mut(r, c, x) }; w }))), sh);
     // rows, columns, iteration order
     k.put::<T>("rows_columns", format!("c_l2 (x_get_row {la} {r}) {} {} && c_l (x_get_col {la} {c}) {}",
@@ -1420,22 +1420,25 @@ fn correspondence(out: &mut Out, rng: &mut Rng, thorough: bool) {
         let col = DenseMatrix::<f64>::from_2d_vec(&v.iter().map(|x| vec![*x]).collect());
         k.put::<f64>("mean_var_std", format!("c_l (x_var {} true) {}", lit_dm(&col), o_l(guard(|| col.var(0)))), (4, 1));
     }
-    let maxd = if thorough { 6 } else { 5 };
+    let maxd = 6;
     // unary: every shape up to maxd x maxd at least once in the thorough tier, a stratified sample otherwise
     let mut shapes: Vec<(usize, usize)> = vec![];
     for n in 1..=maxd { for p in 1..=maxd { shapes.push((n, p)); } }
     rng.shuffle(&mut shapes);
     let must = [(1usize, 1usize), (1, 4), (4, 1), (1, 2), (3, 1), (2, 3), (3, 2)];
-    let nun = if thorough { shapes.len() } else { 9 };
+    let nun = shapes.len();
+    let reps = if thorough { 4 } else { 1 };
     let mut chosen: Vec<(usize, usize)> = must.to_vec();
     chosen.extend(shapes.into_iter().filter(|s| !must.contains(s)).take(nun));
-    for (i, (n, p)) in chosen.iter().enumerate() {
-        corr_unary::<f64>(&mut k, rng, *n, *p);
-        if i % 3 == 0 {
-            corr_unary::<f32>(&mut k, rng, *n, *p);
+    for rep in 0..reps {
+        for (i, (n, p)) in chosen.iter().enumerate() {
+            corr_unary::<f64>(&mut k, rng, *n, *p);
+            if (i + rep) % 3 == 0 {
+                corr_unary::<f32>(&mut k, rng, *n, *p);
+            }
         }
     }
-    let nbin = if thorough { 160 } else { 36 };
+    let nbin = if thorough { 700 } else { 140 };
     for i in 0..nbin {
         let (s1, s2) = gen_shape_pair(rng, maxd);
         corr_binary::<f64>(&mut k, rng, s1, s2);
@@ -1444,7 +1447,7 @@ fn correspondence(out: &mut Out, rng: &mut Rng, thorough: bool) {
             corr_binary::<f32>(&mut k, rng, s1, s2);
         }
     }
-    for i in 0..(if thorough { 60 } else { 14 }) {
+    for i in 0..(if thorough { 240 } else { 48 }) {
         let n1 = rng.usize_in(1, 7);
         let n2 = if rng.chance(0.7) { n1 } else { rng.usize_in(1, 7) };
         corr_vector::<f64>(&mut k, rng, n1, n2);
